@@ -4,9 +4,24 @@ import (
 	"bytes"
 	"encoding/binary"
 	"errors"
+	"hash/crc32"
 	"sort"
+	"strconv"
 	"strings"
 )
+
+type stNode struct {
+	Keys    [3]int64
+	IsLeaf  uint16
+	KeysNum uint16
+	Addr    int64
+}
+
+type stByLen [][]byte
+
+func (s stByLen) Len() int           { return len(s) }
+func (s stByLen) Less(i, j int) bool { return len(s[i]) < len(s[j]) || (len(s[i]) == len(s[j]) && bytes.Compare(s[i], s[j]) < 0) }
+func (s stByLen) Swap(i, j int)      { s[i], s[j] = s[j], s[i] }
 
 // Translator self-test (registered under C21, group "translator-selftest"): Go constructs with
 // easy-to-get-wrong semantics are executed on solver-chosen inputs and every result is observed;
@@ -45,7 +60,7 @@ func H_Self_Semantics() {
 	u := vNondetUint32()
 	b := vNondetByte()
 	sh := uint(vChoose(4)) * 21 // 0, 21, 42, 63
-	which := vChoose(6)
+	which := vChoose(8)
 	vReach("self.run")
 	switch which {
 	case 0: // integer arithmetic: wrap-around, signed division and remainder, shifts, conversions
@@ -182,5 +197,83 @@ func H_Self_Semantics() {
 		vObserveStr("concat", str+string(rune('0'+b%10)))
 		vObserveInt("strlen", len(str+"é"))
 		vObserveInt("str-index", int(str[1]))
+	case 6: // bytes.Buffer, binary.Write/Read of a fixed-size struct, sort.Sort / sort.Ints, strconv
+		var bb bytes.Buffer
+		bb.Write([]byte{b, 2})
+		bb.WriteString("|")
+		cn := []int{-12, 0, 7, 1 << 40}[vChoose(4)] // decimal conversion is only modelled for concrete integers
+		bb.Write([]byte(strconv.Itoa(cn)))
+		vObserveBytes("buffer", bb.Bytes())
+		n := stNode{Keys: [3]int64{x, y, -1}, IsLeaf: uint16(u), KeysNum: uint16(b), Addr: x ^ y}
+		var wb bytes.Buffer
+		err := binary.Write(&wb, binary.LittleEndian, n)
+		vObserveBool("write-ok", err == nil)
+		vObserveInt("encoded-len", wb.Len())
+		var back stNode
+		err = binary.Read(bytes.NewBuffer(wb.Bytes()), binary.LittleEndian, &back)
+		vObserveBool("read-ok", err == nil)
+		vObserveBool("roundtrip", back == n)
+		vObserveBytes("encoded", wb.Bytes())
+		ss := stByLen{{b}, {1, 2}, {}, {b + 1}, {0}}
+		sort.Sort(ss)
+		var flat []byte
+		for _, e := range ss {
+			flat = append(flat, byte(len(e)))
+			flat = append(flat, e...)
+		}
+		vObserveBytes("sorted", flat)
+		is := []int{int(b), 5, -3, int(int8(b))}
+		sort.Ints(is)
+		vObserveInt("ints", is[0]*1000000+is[1]*10000+is[2]*100+is[3])
+		v, perr := strconv.Atoi(strconv.Itoa(cn))
+		vObserveInt("atoi", v)
+		vObserveBool("atoi-ok", perr == nil)
+	case 7: // checksums over known bytes, multi-value returns, labelled break/continue, goto-free loops, switch fallthrough
+		data := []byte{b, b ^ 0xff, 3}
+		c1 := crc32.ChecksumIEEE(data)
+		c2 := crc32.ChecksumIEEE([]byte{b, b ^ 0xff, 3})
+		c3 := crc32.ChecksumIEEE([]byte{b, b ^ 0xff, 4})
+		vObserveBool("crc-deterministic", c1 == c2)
+		vObserveBool("crc-differs", c1 != c3)
+		cnt := 0
+	outer:
+		for i := 0; i < 4; i++ {
+			for j := 0; j < 4; j++ {
+				if j == int(b&3) {
+					continue outer
+				}
+				if i == 3 {
+					break outer
+				}
+				cnt += 10*i + j
+			}
+		}
+		vObserveInt("labels", cnt)
+		f := 0
+		switch b & 3 {
+		case 0:
+			f += 1
+			fallthrough
+		case 1:
+			f += 10
+		case 2, 3:
+			f += 100
+		}
+		vObserveInt("fallthrough", f)
+		q, r := divmod(int(int8(b)), 7)
+		vObserveInt("divmod", q*100+r)
+		var arr [4]uint16
+		for i := range arr {
+			arr[i] = uint16(b) << uint(i*4)
+		}
+		vObserveInt("array-loop", int(arr[0])+int(arr[1])+int(arr[2])+int(arr[3]))
+		bs := []byte("hello")
+		copy(bs[1:], "EY")
+		vObserveBytes("copy-from-string", bs)
 	}
+}
+
+func divmod(a, b int) (q, r int) {
+	defer func() { r += 0 }()
+	return a / b, a % b
 }
